@@ -241,6 +241,58 @@ func propC04(c *Ctx) {
 		}
 	}
 
+	// (2b) cross product over the leading fields of a body: small values in the first two octets x every 16-bit
+	// value the source mentions (types, limits; and their neighbours when the literal is new) in octets 2..3 and 0..1
+	s2b := c.suite("leading-field-cross-product", "oracle",
+		"for every payload-body, chain, EAP and message decoder: inputs whose first octets are the cross product {0..5,8,16,255} x {0..5,8,16,255} x {every 16-bit integer literal of the current source, +-1 for literals the pinned tree does not have, and 0,1,255,256,65535} (also with the 16-bit value first), followed by 0,1,3,4,8,12 further octets (zero / 0xff / random); non-trivial = input of >= 4 octets")
+	small := []int{0, 1, 2, 3, 4, 5, 8, 16, 255}
+	w16 := map[int]bool{0: true, 1: true, 255: true, 256: true, 65535: true}
+	for _, v := range dictInts {
+		if v < 65536 {
+			w16[int(v)] = true
+		}
+	}
+	for _, v := range newInts {
+		if v < 65536 {
+			w16[int(v)] = true
+		}
+	}
+	var w16s []int
+	for v := 0; v < 65536; v++ {
+		if w16[v] {
+			w16s = append(w16s, v)
+		}
+	}
+	tails := []int{0, 1, 3, 4, 8, 12}
+	for _, d := range ds {
+		if d.name == "msg" || d.name == "hdr" {
+			continue
+		}
+		for _, a := range small {
+			for _, b := range small {
+				for _, w := range w16s {
+					for ti, tl := range tails {
+						tail := make([]byte, tl)
+						switch (ti + a + w) % 3 {
+						case 1:
+							for i := range tail {
+								tail[i] = 0xff
+							}
+						case 2:
+							g.r.Read(tail)
+						}
+						in := append([]byte{byte(a), byte(b), byte(w >> 8), byte(w)}, tail...)
+						if (a+b+w+ti)%2 == 1 {
+							in = append([]byte{byte(w >> 8), byte(w), byte(a), byte(b)}, tail...)
+						}
+						c.checkDecoder(s2b, d, in, idx, "sweep16")
+						idx++
+					}
+				}
+			}
+		}
+	}
+
 	// (3) the unprotect and cipher entry points
 	c.c04Unprotect(g)
 
